@@ -115,6 +115,8 @@ def check(ctx, rep):
     rep.rule("R07g", "entries hidden by metadata stay hidden: MergeLinkFiles removes the walked entry for Type=X, never re-adds a block for a walked file, keeps its selector index intact", floor=1)
     rep.rule("R07j", "a listing depends on this directory alone: building it writes no module- or class-level state (a verdict remembered for one "
              "directory must not be replayed for another)", floor=1)
+    rep.rule("R07k", "= R10a: a stored listing stands in for the directory only within the configured lifetime - what was listed, hidden or ordered "
+             "by metadata that has changed since is generated again", floor=1)
     rep.rule("R07i", "= R10c: the listing kept for later requests is the final one (hidden names removed, merged, sorted) - never an intermediate list", floor=2)
     rep.rule("R07h", "the real-file-system VFS lists names exactly as the OS returns them (file-system decoding only): the selector built from a listed name is the name on disk", floor=1)
     rep.rule("R07f", "a name is appended to the file list exactly when the filter accepts it, once", floor=1)
@@ -287,8 +289,16 @@ def check(ctx, rep):
     if len(rep.obligations) == n_before:
         rep.ok("R07j", f"no module- or class-level state is written while a listing is built [{len(listing_funcs)} functions]", "pygopherd/handlers/dir.py")
     # ------------------------------------------------------------------ R07i
-    from .c10 import save_order_obligations
+    from .c10 import freshness_obligations, save_order_obligations
     save_order_obligations(ctx, rep, "R07i")
+    # ------------------------------------------------------------------ R07k
+    eff_ = _Eff(prog, ctx.resolver)
+    dirbase_ = ctx.cls("handlers.dir.DirHandler")
+    for C in family:
+        lc = prog.resolve_method(C, "loadcache")
+        if lc is None or (lc.cls is not C and C is not dirbase_):
+            continue
+        freshness_obligations(ctx, rep, eff_, C, lc, "R07k")
     # ------------------------------------------------------------------ R07h
     vfsr = ctx.cls("handlers.base.VFS_Real")
     ld = vfsr.methods.get("listdir") if vfsr else None
